@@ -41,6 +41,13 @@ class Builtin:
         self.name = name
 
 
+class HarnessStub:
+    """A callee replaced by the harness (used to cut a chain at a function whose part is verified separately)."""
+
+    def __init__(self, fn):
+        self.fn = fn
+
+
 class UF:
     """Uninterpreted spec function (Int-theory loop-level proofs)."""
 
@@ -100,6 +107,8 @@ class ExprMixin:
                 if mod.repo.has_module(mname + "." + attr):
                     return ModRef(modinfo=mod.repo.module(mname + "." + attr))
                 return self.module_global(target, attr, node, depth + 1)
+            if mname == "typing" and attr == "cast":
+                return Builtin("cast")
             live = __import__(mname, fromlist=[attr])
             return self.convert_live(getattr(live, attr))
         if name in BUILTIN_NAMES:
@@ -491,7 +500,10 @@ class ExprMixin:
                 inr = zand(idx >= ops.int_const(0), idx < ops.int_const(n))
                 # negative indices are legal Python but outside the accepted subset: obligation
                 self.ctx.guard_error(idx >= ops.int_const(n), "IndexError", w)
-                self.ctx.oblige("safety:index-non-negative@" + w, idx >= ops.int_const(0), w, "safety")
+                from . import ranges
+                ri = ranges.rng(idx) if z3.is_bv(idx) else None
+                if not (ri is not None and ri[0] >= 0):
+                    self.ctx.oblige("safety:index-non-negative@" + w, idx >= ops.int_const(0), w, "safety")
                 if n == 0:
                     raise Killed()
                 return self.normalize_choice(Choice([(idx == ops.int_const(i), base[i]) for i in range(n)]))
